@@ -34,6 +34,8 @@ SubMix == [c \in Client |-> << [kind |-> "single", invs |-> <<"i1">>],
                                [kind |-> "batch", invs |-> <<"i2">>] >>]
 RetryOk == [i \in Inv |-> IF i = "i1" THEN <<"retry", "ok">> ELSE <<"ok">>]
 
+RetryFail == [i \in Inv |-> IF i = "i1" THEN <<"retry", "ok">> ELSE <<"fail">>]
+
 Bounded == /\ \A i \in Inv : execs[i] <= 3 /\ Len(changes[i]) <= 9
            /\ Len(queue) <= 4
 =============================================================================
